@@ -40,6 +40,9 @@ def gen_harnesses(tier, seed):
         nlit = rng.choice((1, 2, 3, 4, 5, 6))
         mixed = rng.random() < 0.3
         pool = list(range(-1, 8)) + (["a", "b", "ab", True, None] if mixed else [])
+        if i % 5 == 4:
+            # string values with characters that are special for str.format / repr (the values end up in generated source)
+            pool = ["{", "{{", "}", "{}", "{x}", "a{", "'", '"', "\\", "%s", "a"]
         methods = []
         used = set()
         overlap = rng.random() < 0.35
@@ -61,7 +64,7 @@ def gen_harnesses(tier, seed):
         methods.append(dict(kind="static", bound="object", prio=-1))
         rng.shuffle(methods)
         checks = [("int", "int", None), ("bool", "bool", None), ("str", "str", "len(x) <= 2")]
-        src = gen.one_position_module(methods, list(range(-2, 10)) + [True, False, "a", "b", "ab", ""], checks)
+        src = gen.one_position_module(methods, list(range(-2, 10)) + [True, False, "a", "b", "ab", "", "{", "{{", "}", "{}", "{x}", "a{", "'", '"', "\\", "%s"], checks)
         out.append((f"c11_lit_{i}", src, dict(family="Literal", methods=[{k: v for k, v in m.items()} for m in methods])))
 
     # ---- built-in value types
